@@ -132,4 +132,5 @@ func Observe(tag string, b []byte) {
 }
 func AssumeCollisionFree() {}
 func AllocBudget(bytes int) {}
+func MapCandidates(ids []uint32) {}
 func Note(s string)        {}
